@@ -894,7 +894,8 @@ theorem simpleSupports_of_sstep (p : LocPath) (hp : ∀ s ∈ p, Frags.SStep s) 
   | nil => exact absurd rfl hne
   | cons s0 rest =>
     simp only [simpleSupports, Bool.and_eq_true, List.all_eq_true, bne_iff_ne, ne_eq]
-    refine ⟨(hp s0 List.mem_cons_self).2.2, fun s hs => ?_⟩
+    refine ⟨⟨(hp s0 List.mem_cons_self).2.2, fun s hs => ?_⟩,
+      fun s hs => (hp s (List.dropLast_subset _ hs)).2.2⟩
     obtain ⟨h1, h2, _⟩ := hp s hs
     rcases Kmp.simpleT_cases s.test h2 with ⟨n, h⟩ | h | h <;> simp [h1, h]
 
